@@ -15,15 +15,28 @@ MODEL_MODULES = ["Ebv.Model.Stack"]
 DRIVER = "Drivers/C04.lean"
 THEOREMS = ["Ebv.C04.alloc_bounds", "Ebv.C04.alloc_disjoint", "Ebv.C04.alloc_aligned", "Ebv.C04.temp_below",
             "Ebv.C04.temp_disjoint_from_locals", "Ebv.C04.nested_temps_disjoint", "Ebv.C04.subprog_disjoint_refuted",
-            "Ebv.C04.temp_vs_subprog_refuted"]
-TRUSTED = ["hand-written layout model Ebv.Stack (LocalVar/Dict allocation, get_stack, subprogram address rule), tied by exact correspondence of the "
-           "offsets the real descriptors compute", "harness/vh/interp.py for the shadow-store runs"]
+            "Ebv.C04.temp_vs_subprog_refuted",
+            "Ebv.C04.varSlots_bounds", "Ebv.C04.varSlots_disjoint", "Ebv.C04.writeTemps_above", "Ebv.C04.read_write_same",
+            "Ebv.C04.read_write_indep", "Ebv.C04.exec_shadow", "Ebv.C04.progVars_indep", "Ebv.C04.noninterference"]
+TRUSTED = ["hand-written layout model Ebv.Stack (LocalVar/Dict/Member allocation, get_stack, subprogram address rule; statements as stores of the "
+           "variable's width with arbitrary temporaries), tied by exact correspondence of the offsets the real descriptors and the instance's "
+           "access path compute and of the values real generated programs leave in every variable",
+           "harness/vh/interp.py and the emulated kernel of C10 (harness/vh/props/c10.py EmuKernel) for the shadow-store / exec runs"]
 ASSUMPTIONS = ["formats of local variables are 1/2/4/8 bytes (B H I Q b h i q x); `x & -size` is modelled as rounding down to a multiple of size",
                "that the code emitted for `v = e` stores only into v's range is the frame condition of C01 (assign_correct); here it is exercised by "
-               "the shadow-store runs only", "hash-map variables are covered by C09", "kernel stack limit of 512 bytes is C05's concern"]
-RULE = ("layouts: 1..10 declarations (LocalVar of every format, Dict with random Structure sizes), 0..2 base classes, 0..3 subprogram instances of 1..2 "
-        "classes, nested get_stack of sizes 4/8; shadow runs: every variable assigned a distinct constant in random order, all read back; "
-        "non-trivial = at least two declarations")
+               "the shadow-store runs only", "hash-map and array-map variables are cells of maps of their own in the model (their layout: C08, C09); in the exec runs they take part as "
+               "sources, targets and users of get_stack temporaries", "kernel stack limit of 512 bytes is C05's concern",
+               "exec runs: values are positive and fit every format involved (truncation / sign extension: C01); a program the generator refuses "
+               "(AssembleError: not enough registers) is not judged (C05); subprogram locals are not part of the exec runs (known finding "
+               "C04-subprogram-locals, layout part)"]
+RULE = ("layouts: 1..10 declarations (LocalVar of every format, Dict with random Structure classes, half of them drawn from a pool of 1..3 classes "
+        "so that several Dicts - or key and value of one - use the same class), 0..2 base classes, 0..3 subprogram instances of 1..2 "
+        "classes, nested get_stack of sizes 4/8; addresses are taken where the generated code takes them (instance.<dict>.key/value.addr_offset + "
+        "Member.relative_addr), per member; shadow runs: every variable assigned a distinct constant in random order, all read back; "
+        "exec runs: self-contained programs (1..2 class levels; locals, Dicts over 1..3 shared Structure classes, array-map and hash-map variables) "
+        "loaded into the emulated kernel: every variable (each Dict member included) initialised, then 2..11 statements (constant, copy + constant, "
+        "sum of two variables, Dict.update(), Dict.lookup()), complete read-out by the program itself at the end and sometimes in the middle, "
+        "compared with the shadow store; non-trivial = at least two declarations")
 
 FMT_SIZE = {"B": 1, "b": 1, "H": 2, "h": 2, "I": 4, "i": 4, "Q": 8, "q": 8, "x": 8}
 
@@ -44,13 +57,17 @@ def make_structure(rng, name):
 def gen_layout(rng):
     """returns a JSON-able description: bases = list of decl lists (MRO from root to leaf)"""
     levels = []
+    pool = [rng.randrange(1 << 30) for _ in range(rng.choice([1, 2, 3]))]     # Structure classes several Dicts (or key and value) share
+
+    def struct_id():
+        return rng.choice(pool) if rng.random() < 0.5 else rng.randrange(1 << 30)
     for _ in range(rng.randrange(1, 4)):
         ds = []
         for _ in range(rng.randrange(0, 6)):
-            if rng.random() < 0.8:
+            if rng.random() < 0.75:
                 ds.append(["loc", rng.choice("BHIQbhiqx")])
             else:
-                ds.append(["dict", rng.randrange(1 << 30), rng.randrange(1 << 30)])
+                ds.append(["dict", struct_id(), struct_id()])
         levels.append(ds)
     subs = []
     for _ in range(rng.choice([0, 0, 1, 2, 3])):
@@ -63,6 +80,7 @@ def build(desc):
     from ebpfcat.ebpf import EBPF, LocalVar, SubProgram
     from ebpfcat.hashmap import Dict
     base = EBPF
+    structs = {}    # one Structure class per id: the same id is the same class, whichever Dict (or side) uses it
     names = []      # (level, name, kind)
     for li, ds in enumerate(desc["levels"]):
         ns = {}
@@ -71,9 +89,10 @@ def build(desc):
             if d[0] == "loc":
                 ns[nm] = LocalVar(d[1])
             else:
-                K = make_structure(random.Random(d[1]), "K")
-                V = make_structure(random.Random(d[2]), "V")
-                ns[nm] = Dict(K, V)
+                for sid in d[1:3]:
+                    if sid not in structs:
+                        structs[sid] = make_structure(random.Random(sid), f"S{len(structs)}")
+                ns[nm] = Dict(structs[d[1]], structs[d[2]])
             names.append((li, nm, d[0]))
         base = type(f"L{li}", (base,), ns)
     subclasses = []
@@ -92,6 +111,7 @@ def observe(desc):
     """slots the real descriptors compute: (addr, size, owner) + temps + final stack"""
     cls, e, names, subs = build(desc)
     slots, decls = [], []
+    members, vdecls = [], []       # variables proper: locals and every member of every Dict's key / value
     for li, nm, kind in names:
         d = None
         for c in cls.__mro__:
@@ -101,10 +121,24 @@ def observe(desc):
         if kind == "loc":
             slots.append([d.relative_addr, FMT_SIZE[d.fmt], nm])
             decls.append(["loc", FMT_SIZE[d.fmt]])
+            members.append(slots[-1])
+            vdecls.append(decls[-1])
         else:
-            slots.append([d.key_offset, d.Key.stack, nm + ".key"])
-            slots.append([d.value_offset, d.Value.stack, nm + ".value"])
+            # where the generated code goes: `e.<dict>.key.<member>` is at r10 + key.addr_offset + relative_addr
+            the = getattr(e, nm)
+            slots.append([the.key.addr_offset, d.Key.stack, nm + ".key"])
+            slots.append([the.value.addr_offset, d.Value.stack, nm + ".value"])
             decls.append(["dict", d.Key.stack, d.Value.stack])
+            ms = []
+            for side, st in (("key", the.key), ("value", the.value)):
+                one = []
+                for mn, mv in type(st).__dict__.items():
+                    if hasattr(mv, "relative_addr"):
+                        fmt, addr = mv.fmt_addr(st)
+                        one.append([addr, FMT_SIZE[fmt], f"{nm}.{side}.{mn}"])
+                ms.append(one)
+            members.extend(ms[0] + ms[1])
+            vdecls.append(["dict", [m[1] for m in ms[0]], [m[1] for m in ms[1]]])
     subslots = []
     for si, s in enumerate(subs):
         for k, v in type(s).__dict__.items():
@@ -119,7 +153,8 @@ def observe(desc):
         ctxs.append(c)
     for c in reversed(ctxs):
         c.__exit__(None, None, None)
-    return {"slots": slots, "decls": decls, "final": cls.stack, "temps": temps, "subslots": subslots}
+    return {"slots": slots, "decls": decls, "final": cls.stack, "temps": temps, "subslots": subslots,
+            "members": members, "vdecls": vdecls}
 
 
 def overlap(a, b):
@@ -187,6 +222,272 @@ def shadow_run(ctx, rng, desc):
     ctx.require(not bad, "a variable changed when another one was written", case, str(bad[:3]), None)
 
 
+# ---- execution: real programs over locals, Dict members, array-map and hash-map variables -----------------------
+# A case is self-contained: declarations (Structure classes by number, so that several Dicts - or the key and the
+# value of one - use the same class), statements, and the points at which everything is read out.
+
+def packed_members(rng):
+    """member formats of a Structure the real Member accepts (every offset a multiple of the size)"""
+    out, off = [], 0
+    for _ in range(rng.randrange(1, 4)):
+        f = rng.choice("BHIQbhiq")
+        if off % FMT_SIZE[f]:
+            f = rng.choice("Bb")
+        out.append(f)
+        off += FMT_SIZE[f]
+    return out
+
+
+def maxv(fmt):
+    """values stay positive and inside every format involved (truncation and sign belong to C01)"""
+    return (1 << (min(8 * FMT_SIZE[fmt], 32) - 1)) - 1
+
+
+def exec_vars(case):
+    """[(name, fmt, kind)] of all declared variables, in declaration order: locals and Dict members, then map variables"""
+    stack, cells = [], []
+    for li, ds in enumerate(case["levels"]):
+        for k, d in enumerate(ds):
+            nm = f"v{li}_{k}"
+            if d[0] == "loc":
+                stack.append((nm, d[1], "loc"))
+            elif d[0] == "dict":
+                for side, sid in (("key", d[1]), ("value", d[2])):
+                    for j, f in enumerate(case["structs"][sid]):
+                        stack.append((f"{nm}.{side}.m{j}", f, "member"))
+            else:
+                cells.append((nm, d[1], d[0]))
+    return stack + cells
+
+
+def gen_exec(rng):
+    ns = rng.choice([1, 1, 2, 3])
+    case = {"op": "exec", "structs": [packed_members(rng) for _ in range(ns)], "levels": []}
+    nl = rng.choice([1, 1, 2])
+    for li in range(nl):
+        ds = []
+        for _ in range(rng.randrange(1, 5)):
+            r = rng.random()
+            if r < 0.35:
+                ds.append(["loc", rng.choice("BHIQbhiq")])
+            elif r < 0.7:
+                ds.append(["dict", rng.randrange(ns), rng.randrange(ns)])
+            elif li == nl - 1:      # map variables in the leaf class (a HashMap of a base class cannot be loaded: C09 finding)
+                ds.append([rng.choice(["amap", "hvar"]), rng.choice("BHIQbhiq")])
+        case["levels"].append(ds)
+    vs = exec_vars(case)
+    if len(vs) < 2:
+        case["levels"][-1] += [["loc", "I"], ["dict", 0, 0]]
+        vs = exec_vars(case)
+    dicts = [f"v{li}_{k}" for li, ds in enumerate(case["levels"]) for k, d in enumerate(ds) if d[0] == "dict"]
+    shadow = {}
+    stmts = []
+    order = list(range(len(vs)))
+    rng.shuffle(order)
+    for t in order:                                   # every variable gets a value of its own first
+        shadow[t] = rng.randint(1, maxv(vs[t][1]))
+        stmts.append(["const", t, shadow[t]])
+    case["reads"] = [len(stmts)] if rng.random() < 0.3 else []
+    for _ in range(rng.randrange(2, 12)):
+        t = rng.randrange(len(vs))
+        kind = rng.choice(["const", "copy", "copy", "sum", "sum", "call"])
+        if kind == "call" and dicts:
+            stmts.append([rng.choice(["update", "lookup"]), rng.choice(dicts)])
+            continue
+        st = None
+        for _ in range(6):
+            a, b = rng.randrange(len(vs)), rng.randrange(len(vs))
+            if kind == "copy":
+                add = rng.choice([0, 0, 1, 2])
+                if a != t and shadow[a] + add <= maxv(vs[t][1]):
+                    st, val = ["copy", t, a, add], shadow[a] + add
+                    break
+            elif kind == "sum" and shadow[a] + shadow[b] <= maxv(vs[t][1]):
+                st, val = ["sum", t, a, b], shadow[a] + shadow[b]
+                break
+        if st is None:
+            val = rng.randint(1, maxv(vs[t][1]))
+            st = ["const", t, val]
+        shadow[t] = val
+        stmts.append(st)
+    case["stmts"] = stmts
+    case["reads"].append(len(stmts))
+    return case
+
+
+def expected_exec(case):
+    """the shadow store, from the statements alone: {read point: [value of every variable]}"""
+    vs = exec_vars(case)
+    shadow = [None] * len(vs)
+    out = {}
+    for n, st in enumerate(case["stmts"] + [None]):
+        if n in case["reads"]:
+            out[n] = list(shadow)
+        if st is None:
+            break
+        if st[0] == "const":
+            shadow[st[1]] = st[2]
+        elif st[0] == "copy":
+            shadow[st[1]] = shadow[st[2]] + st[3]
+        elif st[0] == "sum":
+            shadow[st[1]] = shadow[st[2]] + shadow[st[3]]
+    return out
+
+
+def build_exec(case):
+    from ebpfcat.ebpf import EBPF, LocalVar, Structure, Member
+    from ebpfcat.arraymap import ArrayMap
+    from ebpfcat.hashmap import HashMap, Dict
+    structs = [type(f"S{i}", (Structure,), {f"m{j}": Member(f) for j, f in enumerate(fs)}) for i, fs in enumerate(case["structs"])]
+    vs = exec_vars(case)
+    am, hm = ArrayMap(), HashMap()
+
+    def ref(e, i):
+        nm = vs[i][0].split(".")
+        return (e, nm[0]) if len(nm) == 1 else (getattr(getattr(e, nm[0]), nm[1]), nm[2])
+
+    def get(e, i):
+        o, a = ref(e, i)
+        return getattr(o, a)
+
+    def put(e, i, value):
+        o, a = ref(e, i)
+        if vs[i][2] == "hvar" and isinstance(value, int):     # hash-map variables take no Python constants: through a register
+            e.r5 = value
+            value = e.r5
+        setattr(o, a, value)
+
+    def program(e):
+        for n, st in enumerate(case["stmts"] + [None]):
+            if n in case["reads"]:
+                for i in range(len(vs)):
+                    setattr(e, f"o{n}_{i}", get(e, i))
+            if st is None:
+                break
+            if st[0] == "const":
+                put(e, st[1], st[2])
+            elif st[0] == "copy":
+                put(e, st[1], get(e, st[2]) + st[3] if st[3] else get(e, st[2]))
+            elif st[0] == "sum":
+                put(e, st[1], get(e, st[2]) + get(e, st[3]))
+            elif st[0] == "update":
+                getattr(e, st[1]).update()
+            elif st[0] == "lookup":
+                with getattr(e, st[1]).lookup() as (val, Else):
+                    pass
+        e.r0 = 2
+        e.exit()
+    base = EBPF
+    for li, ds in enumerate(case["levels"]):
+        ns = {}
+        if li == len(case["levels"]) - 1:
+            ns.update(am=am, program=program)
+            if any(kind == "hvar" for nm, f, kind in vs):      # (a HashMap without variables cannot be created)
+                ns["hm"] = hm
+            for n in case["reads"]:
+                for i in range(len(vs)):
+                    ns[f"o{n}_{i}"] = am.globalVar("q")
+        for k, d in enumerate(ds):
+            nm = f"v{li}_{k}"
+            ns[nm] = LocalVar(d[1]) if d[0] == "loc" else Dict(structs[d[1]], structs[d[2]], size=4) if d[0] == "dict" \
+                else am.globalVar(d[1]) if d[0] == "amap" else hm.globalVar(d[1])
+        base = type(f"L{li}", (base,), ns)
+    return base
+
+
+def run_exec(case):
+    """the real generated program, loaded into the emulated kernel and executed once; what was read out"""
+    from . import c10
+    from ebpfcat.bpf import ProgType
+    from ebpfcat.ebpf import AssembleError
+    K = c10.EmuKernel(4)
+    nv = len(exec_vars(case))
+    try:
+        with c10.emulated(K):
+            e = build_exec(case)(ProgType.XDP, "GPL")
+            e.load()
+            r0, _ = K.run_prog(e.file_descriptor)
+            if isinstance(r0, str):
+                return {"fault": r0}
+            got = {n: [getattr(e, f"o{n}_{i}") for i in range(nv)] for n in case["reads"]}
+    except AssembleError as ex:
+        return {"asm": str(ex)}
+    except Exception as ex:
+        return {"error": f"{type(ex).__name__}: {ex}"}
+    return {"got": {str(n): v for n, v in got.items()}, "final": got[len(case["stmts"])]}
+
+
+def judge_exec(ctx, case, res):
+    """the property on the execution: at every read-out each variable holds what was last assigned to it"""
+    vs = exec_vars(case)
+    if "asm" in res:                  # the generator refuses the program (C05's concern): no execution to judge
+        ctx.stats["exec:not-assembled"] += 1
+        return
+    ctx.case(case, nontrivial=True, kind="exec")
+    ids = [x for ds in case["levels"] for d in ds if d[0] == "dict" for x in d[1:3]]
+    if len(ids) != len(set(ids)):
+        ctx.stats["exec:shared-structure-class"] += 1
+    if not ctx.require("error" not in res and "fault" not in res, "the program could not be loaded / faults", case,
+                       res.get("error") or res.get("fault"), None):
+        return
+    for n, want in sorted(expected_exec(case).items()):
+        got = res["got"][str(n)]
+        bad = [(vs[i][0], want[i], got[i]) for i in range(len(vs)) if want[i] is not None and got[i] != want[i]]
+        if not ctx.require(not bad, f"a variable changed when another one was written (read-out after statement {n})", case,
+                           "; ".join(f"{nm} should be {w}, is {g}" for nm, w, g in bad[:4]), None):
+            return
+
+
+def model_exec(case):
+    """the case for the Lean model: sizes instead of formats, variable numbers as they are"""
+    vs = exec_vars(case)
+    decls = []
+    for ds in case["levels"]:
+        for d in ds:
+            if d[0] == "loc":
+                decls.append(["loc", FMT_SIZE[d[1]]])
+            elif d[0] == "dict":
+                decls.append(["dict", [FMT_SIZE[f] for f in case["structs"][d[1]]], [FMT_SIZE[f] for f in case["structs"][d[2]]]])
+    cells = [[i, FMT_SIZE[f]] for i, (nm, f, kind) in enumerate(vs) if kind in ("amap", "hvar")]
+    hv = {i for i, (nm, f, kind) in enumerate(vs) if kind == "hvar"}
+    stmts = []
+    for st in case["stmts"]:
+        if st[0] in ("update", "lookup"):
+            stmts.append({"t": -1, "rhs": ["const", 0], "temps": []})
+        else:       # a 4-byte temporary (the key) for every hash-map variable touched
+            used = [x for x in ([st[1]] + (st[2:3] if st[0] == "copy" else st[2:4] if st[0] == "sum" else [])) if x in hv]
+            stmts.append({"t": st[1], "rhs": [st[0]] + st[2:], "temps": [4] * len(used)})
+    return {"op": "exec", "start": 0, "decls": decls, "cells": cells, "stmts": stmts}
+
+
+def judge_layout(ctx, desc, o):
+    """property oracle on a layout: declared variables and temporaries pairwise disjoint"""
+    main = o["slots"]
+    for i in range(len(main)):
+        for j in range(i):
+            ctx.require(not overlap(main[i], main[j]), f"{main[i][2]} and {main[j][2]} share stack bytes", desc, str(main), None)
+    mem = o["members"]
+    for i in range(len(mem)):
+        for j in range(i):
+            ctx.require(not overlap(mem[i], mem[j]), f"the variables {mem[i][2]} and {mem[j][2]} share stack bytes", desc,
+                        str((mem[i], mem[j])), None)
+    live = []
+    for t in o["temps"]:
+        for s in main + mem + live:
+            ctx.require(not overlap(t, s), "a get_stack temporary overlaps a live variable/temporary", desc, str((t, s)), None)
+        live.append(t)
+    ss = o["subslots"]
+    for i in range(len(ss)):
+        for j in range(i):
+            if ss[i][2].split(".")[0] != ss[j][2].split(".")[0]:
+                ctx.require(not overlap(ss[i], ss[j]), "locals of two subprogram instances share stack bytes", desc, str((ss[i], ss[j])),
+                            "subprogram-locals")
+        for s in main + mem:
+            ctx.require(not overlap(ss[i], s), "a subprogram local overlaps a main-program variable", desc, str((ss[i], s)), None)
+        for t in o["temps"]:
+            ctx.require(not overlap(ss[i], t), "a get_stack temporary overlaps a subprogram local", desc, str((ss[i], t)), "subprogram-locals")
+
+
 def run(ctx):
     rng = ctx.rng
     cases, impl = [], []
@@ -198,29 +499,16 @@ def run(ctx):
             ctx.require(False, f"layout could not be built: {type(ex).__name__}: {ex}", desc, None, "build")
             continue
         ctx.case(desc, nontrivial=len(o["slots"]) >= 2, kind=f"subs{len(desc['subs'])}")
-        # property oracle: declared variables and temporaries pairwise disjoint
-        main = o["slots"]
-        for i in range(len(main)):
-            for j in range(i):
-                ctx.require(not overlap(main[i], main[j]), f"{main[i][2]} and {main[j][2]} share stack bytes", desc, str(main), None)
-        live = []
-        for t in o["temps"]:
-            for s in main + live:
-                ctx.require(not overlap(t, s), "a get_stack temporary overlaps a live variable/temporary", desc, str((t, s)), None)
-            live.append(t)
-        ss = o["subslots"]
-        for i in range(len(ss)):
-            for j in range(i):
-                if ss[i][2].split(".")[0] != ss[j][2].split(".")[0]:
-                    ctx.require(not overlap(ss[i], ss[j]), "locals of two subprogram instances share stack bytes", desc, str((ss[i], ss[j])),
-                                "subprogram-locals")
-            for s in main:
-                ctx.require(not overlap(ss[i], s), "a subprogram local overlaps a main-program variable", desc, str((ss[i], s)), None)
-            for t in o["temps"]:
-                ctx.require(not overlap(ss[i], t), "a get_stack temporary overlaps a subprogram local", desc, str((ss[i], t)), "subprogram-locals")
+        ids = [x for ds in desc["levels"] for d in ds if d[0] == "dict" for x in d[1:3]]
+        if len(ids) != len(set(ids)):
+            ctx.stats["shared-structure-class"] += 1
+        judge_layout(ctx, desc, o)
         # correspondence
+        main, ss = o["slots"], o["subslots"]
         cases.append({"op": "alloc", "start": 0, "decls": o["decls"]})
         impl.append(" ".join(f"{a}:{n}" for a, n, _ in main) + f" | {o['final']}")
+        cases.append({"op": "vars", "start": 0, "decls": o["vdecls"]})
+        impl.append(" ".join(f"{a}:{n}" for a, n, _ in o["members"]) + f" | {o['final']}")
         if o["temps"]:
             cases.append({"op": "temps", "stack": o["final"], "sizes": [n for _, n in o["temps"]]})
             impl.append(" ".join(str(a) for a, _ in o["temps"]))
@@ -229,6 +517,13 @@ def run(ctx):
             impl.append(str(a))
     for _ in range(ctx.n(150, 5000)):
         shadow_run(ctx, rng, gen_layout(rng))
+    for _ in range(ctx.n(250, 8000)):
+        case = gen_exec(rng)
+        res = run_exec(case)
+        judge_exec(ctx, case, res)
+        if res.get("final") is not None:
+            cases.append(model_exec(case))
+            impl.append(" ".join(str(v) for v in res["final"]))
     model = ctx.drive(DRIVER, cases, "stack layout")
     if model is not None:
         for c, i, m in zip(cases, impl, model):
@@ -238,27 +533,25 @@ def run(ctx):
 def replay(ctx, case):
     if case.get("op") == "shadow":
         return {"note": "shadow runs are regenerated from the seed; see the layout cases"}
+    if case.get("op") == "exec":
+        res = run_exec(case)
+        judge_exec(ctx, case, res)
+        return res
     o = observe(case)
-    ss = o["subslots"]
-    for i in range(len(ss)):
-        for j in range(i):
-            if ss[i][2].split(".")[0] != ss[j][2].split(".")[0]:
-                ctx.require(not overlap(ss[i], ss[j]), "locals of two subprogram instances share stack bytes", case, str((ss[i], ss[j])),
-                            "subprogram-locals")
-        for t in o["temps"]:
-            ctx.require(not overlap(ss[i], t), "a get_stack temporary overlaps a subprogram local", case, str((ss[i], t)), "subprogram-locals")
-    main = o["slots"]
-    for i in range(len(main)):
-        for j in range(i):
-            ctx.require(not overlap(main[i], main[j]), f"{main[i][2]} and {main[j][2]} share stack bytes", case, str(main), None)
+    judge_layout(ctx, case, o)
     return o
 
 
 LEVEL_TEXT = ("Lean 4 proofs over the stack-layout model, for every declaration list: variables and Dict key/value images are pairwise disjoint, below the "
-              "start and aligned; get_stack temporaries lie strictly below every declared variable and nested temporaries are disjoint. The subprogram "
+              "start and aligned; get_stack temporaries lie strictly below every declared variable and nested temporaries are disjoint; every two variables proper - locals and "
+              "the members of any Dict's key or value, also when Dicts share a Structure class - have bytes of their own (varSlots_disjoint), and for every "
+              "statement list (constants, copies, sums, calls; any temporaries) every variable ends with the value of the shadow store: a statement changes its "
+              "target only (exec_shadow, noninterference; induction over the statement list). The subprogram "
               "rule is refuted (two subprogram instances' first locals share a slot; a main-program temporary overlaps a subprogram local) and recorded "
               "as a known finding. Tie: exact correspondence of the offsets computed by the real LocalVar/Dict/Member descriptors, get_stack and "
-              "fmt_addr for random class hierarchies; plus shadow-store runs of real generated programs in the interpreter.")
+              "fmt_addr for random class hierarchies (addresses taken on the instance's access path, per member); plus shadow-store runs of real generated "
+              "programs and exec runs (real programs over locals, Dict members, array-map and hash-map variables in the emulated kernel, final values "
+              "compared with the model's execAll and judged against the shadow store).")
 LEVEL_NOTE = ("trusted: Lean kernel + standard axioms; layout model validated by correspondence; store footprint of emitted assignments is C01's frame "
               "condition (exercised here only by execution); hash-map variables → C09; array-map layout → C08")
 TECHNIQUE = "Lean 4 induction over declaration lists (disjointness invariant) + exact layout correspondence + shadow-store execution"
